@@ -53,7 +53,7 @@ def guard_slots(unit, rec):
 SAT = 2  # counts saturate at 2 (= "two or more")
 
 
-def move_ctor_effect(c, mfield, flag, own):
+def move_ctor_effect(c, mfield, flag, own, init_state=None, full=False):
     """Symbolic execution of a guard's move constructor over (this.mutex, this.flag, other.mutex, other.flag):
     constructor initialisers, delegation to the (unowned) default constructor, whole-object swap, std::swap of two
     fields, std::exchange, plain assignments.  -> set of (this.mutex, this.flag, other.flag) over all exits."""
@@ -62,11 +62,16 @@ def move_ctor_effect(c, mfield, flag, own):
         return set()
     oroot = "p:%s#%d" % (ps[0]["n"], ps[0]["d"])
     keys = {("this", mfield): 0, ("this", flag): 1, (oroot, mfield): 2, (oroot, flag): 3}
-    init = ("?", "?", "other.mutex@entry", "other.flag@entry")
+    init = init_state if init_state is not None else ("?", "?", "other.mutex@entry", "other.flag@entry")
+    init = tuple(init) + ((),)          # last component: values of local temporaries, as a tuple of (decl id, value)
 
     def ev(x, st):
         """-> (value, state)"""
         x = std_unwrap(x)
+        if x.kind == "DeclRefExpr" and x.get("local") and x.get("dk") == "Var":
+            for d_, v_ in st[4]:
+                if d_ == x.d["d"]:
+                    return v_, st
         while x.kind in ("InitListExpr", "MaterializeTemporaryExpr", "ExprWithCleanups", "CXXBindTemporaryExpr") and len(x.children) == 1:
             x = std_unwrap(x.children[0])
         if x.kind == "CXXBoolLiteralExpr":
@@ -101,7 +106,7 @@ def move_ctor_effect(c, mfield, flag, own):
         if n.kind == "CallExpr" and n.callee and len(n.args) == 2:
             pa, pb = path(n.args[0]), path(n.args[1])
             if own.get(n.callee["did"]) == "swap" and {pa, pb} == {("this",), (oroot,)}:
-                return [(st[2], st[3], st[0], st[1])]
+                return [(st[2], st[3], st[0], st[1], st[4])]
             if n.callee["n"] == "swap" and pa in keys and pb in keys:
                 a, b = keys[pa], keys[pb]
                 l = list(st); l[a], l[b] = l[b], l[a]
@@ -112,9 +117,22 @@ def move_ctor_effect(c, mfield, flag, own):
                 v, st = ev(n.children[1], st)
                 st = st[:k] + (v,) + st[k + 1:]
                 return [st]
+            l_ = n.children[0].strip()
+            if l_.kind == "DeclRefExpr" and l_.get("local") and l_.get("dk") == "Var":
+                v, st = ev(n.children[1], st)
+                return [st[:4] + (tuple((d_, v_) for d_, v_ in st[4] if d_ != l_.d["d"]) + ((l_.d["d"], v),),)]
+        if n.kind == "DeclStmt":
+            for d in n.get("decls", []):
+                if "init" in d:
+                    v, st = ev(c.node(d["init"]), st)
+                    if v != "?":
+                        st = st[:4] + (tuple((d_, v_) for d_, v_ in st[4] if d_ != d["d"]) + ((d["d"], v),),)
+            return [st]
         return [st]
     # std::exchange inside an initialiser is evaluated by the CtorInit itself: skip the stand-alone call elements
     _, ex = flow.run(c, [init], transfer, None)
+    if full:
+        return {s[:4] for s in ex}
     return {(s[0], s[1], s[3]) for s in ex}
 
 
@@ -302,6 +320,28 @@ def check_guards(ctx, unit, table):
                     own[c.did] = {None: outs}
                 ctx.inst("G.ctor", "%s::<ctor %s>" % (cls, kind), ok, c.loc,
                          detail + " (instantiation %s)" % tag, c)
+            assign_ok = {}
+            # assignment: by value + swap (old ownership is released by the parameter's destructor)
+            for f in members:
+                if f.name == "operator=":
+                    ps = f.params()
+                    byval = len(ps) == 1 and not ps[0]["t"].rstrip().endswith("&")
+                    sw = [n for n in f.events() if n.kind == "CallExpr" and n.callee
+                          and own.get(n.callee["did"]) == "swap"]
+                    okk = byval and len(sw) == 1 and {path(a) for a in sw[0].args} == {("this",), ("p:%s#%d" % (ps[0]["n"], ps[0]["d"]),)}
+                    if byval and not okk:
+                        # the same exchange written out by hand: decided by symbolic execution of the two field pairs; the body
+                        # itself calls no mutex method (the parameter's destructor releases what *this held)
+                        fin = move_ctor_effect(f, mfield, flag, own, init_state=("this.mutex@entry", "this.flag@entry",
+                                                                                 "other.mutex@entry", "other.flag@entry"), full=True)
+                        calls_mutex = any(n.kind == "CXXMemberCallExpr" and n.child("obj") is not None and path(n.child("obj"))
+                                          and path(n.child("obj"))[-1] == mfield for n in f.events())
+                        okk = fin == {("other.mutex@entry", "other.flag@entry", "this.mutex@entry", "this.flag@entry")} and not calls_mutex
+                    assign_ok[f.did] = okk
+                    ctx.rule("G.assign", "guard assignment takes its argument by value and swaps *this with it "
+                             "(so the previous ownership is released exactly once by the parameter's destructor)", 1)
+                    ctx.inst("G.assign", "%s::operator=" % cls, okk, f.loc,
+                             "by-value parameter: %s; swap(*this, param) calls: %d (instantiation %s)" % (byval, len(sw), tag), f)
             # other members
             bad = []
             n_other = 0
@@ -316,22 +356,10 @@ def check_guards(ctx, unit, table):
                         if p is not None and len(p) >= 2 and p[-1] == mfield:
                             bad.append("%s calls %s on the mutex at %s" % (f.name, n.callee["n"] if n.callee else "?", n.loc))
                     w = write_of(n)
-                    if w and w[0] is not None and w[0][-1] == flag and f.name != "swap":
+                    if w and w[0] is not None and w[0][-1] == flag and f.name != "swap" and not assign_ok.get(f.did):
                         bad.append("%s writes the ownership flag at %s" % (f.name, n.loc))
             ctx.inst("G.other", "%s::<other members>" % cls, not bad, rec["loc"],
                      "; ".join(bad) if bad else "%d other members examined (instantiation %s)" % (n_other, tag))
-            # assignment: by value + swap (old ownership is released by the parameter's destructor)
-            for f in members:
-                if f.name == "operator=":
-                    ps = f.params()
-                    byval = len(ps) == 1 and not ps[0]["t"].rstrip().endswith("&")
-                    sw = [n for n in f.events() if n.kind == "CallExpr" and n.callee
-                          and own.get(n.callee["did"]) == "swap"]
-                    okk = byval and len(sw) == 1 and {path(a) for a in sw[0].args} == {("this",), ("p:%s#%d" % (ps[0]["n"], ps[0]["d"]),)}
-                    ctx.rule("G.assign", "guard assignment takes its argument by value and swaps *this with it "
-                             "(so the previous ownership is released exactly once by the parameter's destructor)", 1)
-                    ctx.inst("G.assign", "%s::operator=" % cls, okk, f.loc,
-                             "by-value parameter: %s; swap(*this, param) calls: %d (instantiation %s)" % (byval, len(sw), tag), f)
             # type-level
             sp = rec["special"]
             cc = [m for m in rec["methods"] if m.get("copy")]
@@ -362,10 +390,12 @@ def check_swap(ctx, unit, classes, rule="S.swap"):
         recs = unit.record(cls)
         if not recs:
             raise AnalysisBroken("anchor vanished: class %s not instantiated in unit %s" % (cls, unit.name))
+        if not any(f.owner_clsqn == rec["qn"] and f.name == "swap" for rec in recs for f in unit.functions):
+            raise AnalysisBroken("anchor vanished: swap of %s (no instantiation of it in unit %s)" % (cls, unit.name))
         for rec in recs:
+            # (a hidden-friend swap is instantiated only where something calls it: the witness units call it for one
+            # instantiation per class, members may or may not for the others)
             sw = [f for f in unit.functions if f.owner_clsqn == rec["qn"] and f.name == "swap"]
-            if not sw:
-                raise AnalysisBroken("anchor vanished: swap of %s" % rec["qn"])
             for f in sw:
                 ps = f.params()
                 fields = {x["n"] for x in rec["fields"]}
